@@ -19,6 +19,13 @@ NA = {
 }
 
 CHECKS = {
+    "C01": dict(
+        category="exploration",
+        text="Seeded search over histories of protocol calls (get_params deep/shallow, set_params of an advertised key to a different value, transplant of another instance's deep parameters, clone, replace-by-clone, fit) on two or three live instances of each of 29 exported classes, against a reference model (flat parameter dict per instance with a frame condition, aliasing through shared nested objects tracked), plus behavioural equality of transplanted instances by fitting clones. No fault, schedule or entropy dimension exists for this property; the simulator contributes generated histories, the uninitialised-memory seam, minimisation and replay.",
+        design_ref="DESIGN.md §4 C01",
+        note="Trusted: scikit-learn's BaseEstimator.get_params/set_params/clone; string parameters only changed within known legal sets; free keyword parameters of the SkBase family share one key set per run; QuantileMLPRegressor's constructor cannot run under scikit-learn 1.9.",
+        technique="deterministic simulation (degenerate: no schedule/fault dimension): generated call histories vs executable dict reference model",
+    ),
     "C15": dict(
         category="exploration",
         text="Seeded search over call histories (construct, fit, transform, set_params(model=/method=), clone, refit on other data, fit with the inner estimator failing by fault plan) on SkBaseTransformLearner, SkBaseTransformStacking and TransferTransformer against executable references: independently built and directly fitted models (hstack for stacking), recording peers for what the wrapped models were trained on, and pickle+prediction digests of the original estimator for the frozen / never-modified clauses.",
